@@ -30,6 +30,11 @@ const (
 type grid struct {
 	coef  *big.Int // concrete factor (never nil)
 	scale int      // value = coef * T * 2^-scale
+	// den != nil: an exact fraction (coef*T*2^-scale)/den, den > 0 — the value of a
+	// division by a constant before IEEE rounding.  Only comparisons are defined
+	// on it (by cross-multiplication of the exact numerators); rounding of the
+	// quotient itself is outside the claim.
+	den *big.Int
 }
 
 type symv struct {
@@ -400,7 +405,7 @@ func symUnop(op token.Token, x symv) value {
 		return ex.name(symv{ex: ex, k: kInt, bk: x.bk, e: infoOf(x.bk).wrap1("(- " + x.e + ")")})
 	case op == token.SUB && x.k == kF64:
 		if x.g != nil {
-			return symv{ex: ex, k: kF64, bk: x.bk, e: x.e, g: &grid{coef: new(big.Int).Neg(x.g.coef), scale: x.g.scale}}
+			return symv{ex: ex, k: kF64, bk: x.bk, e: x.e, g: &grid{coef: new(big.Int).Neg(x.g.coef), scale: x.g.scale, den: x.g.den}}
 		}
 		return symv{ex: ex, k: kF64, bk: x.bk, e: "(fp.neg " + x.e + ")"}
 	}
@@ -445,6 +450,9 @@ func symConv(tdst types.Type, x symv) value {
 	case b.Info()&types.IsInteger != 0 && x.k == kF64:
 		dst := infoOf(b.Kind())
 		if x.g != nil {
+			if x.g.den != nil {
+				unsupported("conversion of an inexact quotient to an integer")
+			}
 			return ex.name(symv{ex: ex, k: kInt, bk: b.Kind(), e: dst.wrapm(gridTrunc(x))})
 		}
 		if !dst.signed || dst.bits != 64 {
@@ -512,6 +520,24 @@ func gridTerm(x symv, up int) string {
 }
 
 func gridBinop(ex *Explorer, op token.Token, a, b symv) value {
+	if a.g.den != nil || b.g.den != nil {
+		switch op {
+		case token.ADD, token.SUB, token.MUL, token.QUO:
+			return symv{ex: ex, k: kF64, bk: types.Float64, e: "0", g: &grid{coef: big.NewInt(1)}, bad: "arithmetic on an inexact quotient"}
+		}
+		// compare a.num/a.den with b.num/b.den  <=>  a.num*b.den ? b.num*a.den
+		one := big.NewInt(1)
+		da, db := a.g.den, b.g.den
+		if da == nil {
+			da = one
+		}
+		if db == nil {
+			db = one
+		}
+		a2 := symv{ex: ex, k: kF64, bk: a.bk, e: a.e, g: &grid{coef: new(big.Int).Mul(a.g.coef, db), scale: a.g.scale}}
+		b2 := symv{ex: ex, k: kF64, bk: b.bk, e: b.e, g: &grid{coef: new(big.Int).Mul(b.g.coef, da), scale: b.g.scale}}
+		return gridBinop(ex, op, a2, b2)
+	}
 	switch op {
 	case token.MUL:
 		g := &grid{coef: new(big.Int).Mul(a.g.coef, b.g.coef), scale: a.g.scale + b.g.scale}
@@ -538,7 +564,13 @@ func gridBinop(ex *Explorer, op token.Token, a, b symv) value {
 		}
 		q, r := new(big.Int).QuoRem(a.g.coef, b.g.coef, new(big.Int))
 		if r.Sign() != 0 {
-			return symv{ex: ex, k: kF64, bk: types.Float64, e: "0", g: &grid{coef: big.NewInt(1)}, bad: "inexact quotient by a constant"}
+			den := new(big.Int).Set(b.g.coef)
+			num := new(big.Int).Set(a.g.coef)
+			if den.Sign() < 0 {
+				den.Neg(den)
+				num.Neg(num)
+			}
+			return symv{ex: ex, k: kF64, bk: types.Float64, e: a.e, g: &grid{coef: num, scale: a.g.scale - b.g.scale, den: den}}
 		}
 		return symv{ex: ex, k: kF64, bk: types.Float64, e: a.e, g: &grid{coef: q, scale: a.g.scale - b.g.scale}}
 	}
